@@ -41,6 +41,7 @@ WithPesVerdict(e) ==
   ELSE IF ~HasPTS(PayloadPart(p)) \/ PTS(PayloadPart(p)) # e.pts THEN "withpes-pts-bytes"
   ELSE ""
 Verdict(e) == IF e.panic # "" THEN "panic"
+  ELSE IF ~e.earlier_same THEN "object-returned-earlier-reads-differently-after-a-later-call"
               ELSE IF e.op = "withpes" THEN WithPesVerdict(e)
               ELSE IF e.op = "pes" THEN PesVerdict(e)
               ELSE IF e.op = "tspes" THEN TsVerdict(e)
